@@ -3,6 +3,7 @@ package harness
 import (
 	"bytes"
 	"runtime"
+	"runtime/metrics"
 	"sort"
 	"testing"
 
@@ -265,7 +266,7 @@ func runC05(t failer, c c05Case) {
 		if err != nil {
 			t.Fatalf("%v", err)
 		}
-		var m0 runtime.MemStats
+		var large0 uint64
 		if c.Terminal == "oversize" {
 			// deliver the complete packets first so that the allocation measured afterwards is
 			// that of refusing the oversize header alone
@@ -291,7 +292,7 @@ func runC05(t failer, c c05Case) {
 			}
 			srv.log.SetMuted(true) // the event log's own growth must not be counted
 			runtime.GC()
-			runtime.ReadMemStats(&m0)
+			large0 = largeAllocs()
 			chunks = post
 		}
 		conn.Feed(chunks...)
@@ -321,15 +322,13 @@ func runC05(t failer, c c05Case) {
 			if !conn.Closed() {
 				fail("oversize-not-refused", "header announcing %d body bytes was not refused at once: the server waits for more input", c.Oversize)
 			}
-			var m1 runtime.MemStats
-			runtime.ReadMemStats(&m1)
-			// refusing must not allocate anything like the announced size: half of it, at most 256 KiB
-			bound := uint64(c.Oversize / 2)
-			if bound > 256<<10 {
-				bound = 256 << 10
-			}
-			if d := m1.TotalAlloc - m0.TotalAlloc; d > bound {
-				fail("oversize-allocated", "refusing a header that announces %d bytes allocated %d bytes (bound %d)", c.Oversize, d, bound)
+			// refusing must not allocate the announced body: any announced size is a "large object"
+			// (> 32 KiB) for the Go allocator, and nothing else in the refusal path or in the (muted)
+			// harness allocates one, so the count of large-object allocations must not move.  (A bound on
+			// TotalAlloc proved noisy under load: metrics summaries and the runtime allocate a few
+			// kilobytes at unpredictable moments.)
+			if n := largeAllocs() - large0; n > 0 {
+				fail("oversize-allocated", "refusing a header that announces %d bytes allocated %d object(s) larger than 32 KiB", c.Oversize, n)
 			}
 			srv.log.SetMuted(false)
 		default:
@@ -496,4 +495,16 @@ func TestC05Regress(t *testing.T) {
 		mustUnmarshal(t, s, &c)
 		runC05(t, c)
 	}
+}
+
+// largeAllocs returns how many heap objects larger than the biggest size class (32 KiB) have been
+// allocated by the process so far.
+func largeAllocs() uint64 {
+	s := []metrics.Sample{{Name: "/gc/heap/allocs-by-size:bytes"}}
+	metrics.Read(s)
+	if s[0].Value.Kind() != metrics.KindFloat64Histogram {
+		return 0
+	}
+	h := s[0].Value.Float64Histogram()
+	return h.Counts[len(h.Counts)-1]
 }
